@@ -237,6 +237,39 @@ def gen_cutoff(tier, seed):
                         yield mk_case("cutoff", d, "orth", H, pos, types, [1] * d, POTS[ip], MASSES[0], shift)
 
 
+def smallbox_placement(seed, d, n):
+    """n generic points in a periodic box of edge 2.6 (2.7, 2.8): HALF the box is shorter than every cutoff (1.9 - 2.1), so interacting pairs
+    exist whose minimum-image distance exceeds L/2 (up to sqrt(d) L/2); contact decisions keep the margins of the graph placements"""
+    L = [2.6, 2.7, 2.8][:d]
+    H = np.diag(L)
+    ppp = np.ones(d, int)
+    for t in range(400):
+        pos = np.array(A.generic_points(seed, n, d, tag=f"c11sb{d}{n}_{t}_")) * np.array(L)
+        ok, far = True, 0
+        for i, j in edges_of(n):
+            raw = (pos[i] - pos[j])[None, :]
+            rr = float(np.linalg.norm(minimg(raw, H, ppp)[0]))
+            if rr < 0.7 or BAND[0] - 0.02 <= rr <= BAND[1] + 0.02 or frac_tie_margin(raw, H, ppp) < 1e-3:
+                ok = False
+                break
+            far += int(min(L) / 2 + 0.05 < rr < BAND[0])
+        if ok and far >= 1:
+            return pos.tolist(), H.tolist()
+    raise RuntimeError(f"C11: no small-box placement for d={d} n={n}")
+
+
+def gen_smallbox(tier, seed):
+    """numerical regime: r_cut > L/2 (a few particles in a tiny periodic box); every pair interacts through its minimum image only"""
+    for d in (2, 3):
+        for n in ((3, 4) if tier == "quick" else (3, 4, 5)):
+            pos, H = smallbox_placement(seed, d, n)
+            for types in itertools.product([1, 2], repeat=n):
+                for ip in (0, 1, 2):
+                    for im in (0, 1):
+                        for shift in (True, False):
+                            yield mk_case("smallbox", d, "orth", H, pos, types, [1] * d, POTS[ip], MASSES[im], shift)
+
+
 def gen_files(tier, seed):
     """default output name (model name), integer-typed parameter matrices"""
     for d in (2, 3):
@@ -993,6 +1026,10 @@ def subs(tier, seed):
         Sub("C11.matrix.cutoff", gen_cutoff, run,
             rule="pair distances 1.95 and 2.05 lying between the species cutoffs 1.9/2.0/2.1, all type maps, N=2,3: interaction "
                  "membership and s'(rc) must use r_cut[type_i,type_j]"),
+        Sub("C11.matrix.smallbox", gen_smallbox, run,
+            rule="numerical regime r_cut > L/2: N = 3, 4 (5 thorough) generic particles in a fully periodic box of edge 2.6 x 2.7 (x 2.8), cutoffs 1.9 - 2.1, "
+                 "at least one interacting pair farther apart than half the box; all type maps x {LJ, IPL, Hertz} x masses x shift; every entry of the "
+                 "saved matrix against the hyper-dual second derivatives of the minimum-image pair energy"),
         Sub("C11.matrix.files", gen_files, run, rule="default output name = model name (outputfile='')"),
         Sub("C11.matrix.intparams", gen_intparams, run, rule="integer-typed epsilon matrix [[1,2],[2,1]] with equal and unequal masses; and EVERY numeric "
             "input integer-typed (masses {1:1, 2:3|1}, epsilon, sigma [[1,1],[1,1]], r_cut [[2,2],[2,2]])"),
